@@ -37,6 +37,9 @@ Fixpoint uses (st : stmt) (s : set) : set :=
   | SIf c s1 s2 fas => use_triples fas (go s2 (go s1 (use_expr c s)))
   | SSIf c _ ss => go ss (use_expr c s)
   | SWhile lvs ss _ => go ss (use_triples lvs s)
+  | SStruct _ _ es => use_exprs es s
+  | SLateDecl _ => s
+  | SLateAssign _ e => use_expr e s
   end.
 Fixpoint uses_l (ss : list stmt) (s : set) : set :=
   match ss with [] => s | st :: r => uses_l r (uses st s) end.
@@ -101,6 +104,9 @@ Fixpoint dce_stmt (st : stmt) (s : set) : option stmt * set :=
       let '(ss', sb) := go ss sa in
       let '(lvs2, sc) := dce_lvs lvs1 sb in
       (Some (SWhile lvs2 ss' bc'), sc)
+  | SStruct x _ es => if negb (memb x s) then (None, s) else (Some st, use_exprs es s)
+  | SLateDecl x => if negb (memb x s) then (None, s) else (Some st, s)
+  | SLateAssign x e => if negb (memb x s) then (None, s) else (Some st, use_expr e s)
   end.
 Fixpoint dce_stmts (ss : list stmt) (s : set) : list stmt * set :=
   match ss with
@@ -163,8 +169,15 @@ Definition flex_unwrapped (op : binop) (e1 e2 : expr) : binop * expr * expr :=
 Definition vcx := list (name * expr).
 Definition bexp := (binop * name * Z)%type.               (* BinaryExpression { operator, e1, e2 } *)
 Definition bcx := list (name * bexp).
-Record cx := mkcx { cx_v : vcx; cx_b : bcx }.
-Definition cx0 : cx := mkcx [] [].
+(* index_access_cx: the fields of the structs made so far, (struct variable, index) -> field expression *)
+Definition icx := list (name * N * expr).
+Record cx := mkcx { cx_v : vcx; cx_b : bcx; cx_i : icx }.
+Definition cx0 : cx := mkcx [] [] [].
+Fixpoint assoc_i (x : name) (i : N) (l : icx) : option expr :=
+  match l with [] => None | (y, j, e) :: r => if N.eqb x y && N.eqb i j then Some e else assoc_i x i r end.
+Fixpoint fields_from (x : name) (i : N) (es : list expr) : icx :=
+  match es with [] => [] | e :: r => (x, i, e) :: fields_from x (N.succ i) r end.
+Definition add_fields (x : name) (es : list expr) (c : cx) : cx := mkcx (cx_v c) (cx_b c) (fields_from x 0 es ++ cx_i c).
 
 Fixpoint assoc {A} (x : name) (l : list (name * A)) : option A :=
   match l with [] => None | (y, v) :: r => if N.eqb x y then Some v else assoc x r end.
@@ -174,8 +187,8 @@ Definition opt_expr (c : vcx) (e : expr) : expr :=
   match e with EVar x => match assoc x c with Some b => b | None => e end | _ => e end.
 (* checked_bind: None models the panic on a name that is already bound *)
 Definition bind (x : name) (e : expr) (c : cx) : option cx :=
-  match assoc x (cx_v c) with Some _ => None | None => Some (mkcx ((x, e) :: cx_v c) (cx_b c)) end.
-Definition bind_b (x : name) (b : bexp) (c : cx) : cx := mkcx (cx_v c) ((x, b) :: cx_b c).
+  match assoc x (cx_v c) with Some _ => None | None => Some (mkcx ((x, e) :: cx_v c) (cx_b c) (cx_i c)) end.
+Definition bind_b (x : name) (b : bexp) (c : cx) : cx := mkcx (cx_v c) ((x, b) :: cx_b c) (cx_i c).
 
 (* flags carried next to the result.  fst: "outside the proved class": the code before one of the repairs on
    the path that repair changed, or the pass left a dead construct whose operands may name statements it has
@@ -202,8 +215,13 @@ Definition dead_final_assignments (o1 o2 : list stmt) (fas : list triple) : bool
    findings of this check:  v_guard  = fix 6cdc437 (the first iteration replaces the loop only if the rest of
    the body has no break of this loop);  v_optinit = fix fef18b5 (an unchanging loop variable is bound to the
    OPTIMISED initial value) *)
-Record ver := mkver { v_guard : bool; v_optinit : bool }.
-Definition ver_now : ver := mkver true true.
+Record ver := mkver { v_guard : bool; v_optinit : bool; v_forward : bool }.
+Definition ver_now : ver := mkver true true true.
+(* the pass without the forwarding of struct fields (index_access_cx): IndexedAccess statements are always kept.
+   The preservation theorems are proved for this variant and hold for the pass itself whenever the two agree on
+   the function (`no_struct_forwarding`, decidable: it holds in particular when no field of a struct made in the
+   function is read in it, which is the case for every function before inlining) *)
+Definition ver_nf : ver := mkver true true false.
 
 (* emitted statements, context, ends_with_break, flags *)
 Definition R := (list stmt * cx * bool * fl)%type.
@@ -401,7 +419,20 @@ Fixpoint ccp_stmt (g : ver) (n : nat) (st : stmt) (c : cx) {struct n} : option R
                     end
         | None => Some ([SNot x e], c, false, fl0)
         end
-    | SPrim x p e => Some ([SPrim x p (opt_expr (cx_v c) e)], c, false, fl0)
+    | SPrim x p e =>
+        let e := opt_expr (cx_v c) e in
+        match
+          match p, e with
+          | PIdx _ i, EVar y => if v_forward g then assoc_i y i (cx_i c) else None      (* a field of a struct made in this function *)
+          | _, _ => None
+          end
+        with
+        | Some computed => match bind x computed c with
+                           | Some c' => Some ([], c', false, fl0)
+                           | None => None
+                           end
+        | None => Some ([SPrim x p e], c, false, fl0)
+        end
     | SBin x op e1 e2 => ccp_bin x op e1 e2 c
     | SCall f args ret => Some ([SCall f (map (opt_expr (cx_v c)) args) ret], c, false, fl0)
     | SIf cond s1 s2 fas =>
@@ -510,6 +541,11 @@ Fixpoint ccp_stmt (g : ver) (n : nat) (st : stmt) (c : cx) {struct n} : option R
                 end
             end
         end
+    | SStruct x tn es =>
+        let es := map (opt_expr (cx_v c)) es in
+        Some ([SStruct x tn es], add_fields x es c, false, fl0)
+    | SLateDecl x => Some ([st], c, false, fl0)
+    | SLateAssign x e => Some ([SLateAssign x (opt_expr (cx_v c) e)], c, false, fl0)
     end
   end.
 Definition ccp_stmts (g : ver) (n : nat) : list stmt -> cx -> option R := ccp_go (ccp_stmt g n).
@@ -525,8 +561,10 @@ Definition ccp : func -> option (func * fl) := ccp_gen ver_now.
 (* decidable: while optimising f the pass (as it is now) met one of the two situations above *)
 Definition dead_final_operands (f : func) : bool := match ccp f with Some (_, fl) => fst fl | None => false end.
 Definition no_dead_final_operands (f : func) : Prop := dead_final_operands f = false.
-Definition ccp_old : func -> option (func * fl) := ccp_gen (mkver false false).      (* before fix 6cdc437 *)
-Definition ccp_old2 : func -> option (func * fl) := ccp_gen (mkver true false).      (* after 6cdc437, before fef18b5 *)
+Definition ccp_nf : func -> option (func * fl) := ccp_gen ver_nf.
+Definition no_struct_forwarding (f : func) : Prop := ccp_nf f = ccp f.
+Definition ccp_old : func -> option (func * fl) := ccp_gen (mkver false false true).      (* before fix 6cdc437 *)
+Definition ccp_old2 : func -> option (func * fl) := ccp_gen (mkver true false true).      (* after 6cdc437, before fef18b5 *)
 
 (* ======================================================================== local value numbering *)
 
@@ -611,6 +649,9 @@ Fixpoint lvn_stmt (st : stmt) (vc : lvc) (bc : lbc) {struct st} : option stmt * 
   | SWhile lvs ss bcol =>
       let '(ss', vc1, _) := go ss vc bc in
       (Some (SWhile (map (fun t => (t_name t, lvn_expr vc (t_e1 t), lvn_expr vc1 (t_e2 t))) lvs) ss' bcol), vc, bc)
+  | SStruct x tn es => (Some (SStruct x tn (map (lvn_expr vc) es)), vc, bc)
+  | SLateDecl x => (Some st, vc, bc)
+  | SLateAssign x e => (Some (SLateAssign x (lvn_expr vc e)), vc, bc)
   end.
 Fixpoint lvn_stmts (ss : list stmt) (vc : lvc) (bc : lbc) : list stmt * lvc * lbc :=
   match ss with
@@ -754,9 +795,11 @@ Definition cse_old (sup : list name) (f : func) : option func := option_map fst 
      one round  = ccp; [cse]; [lvn]; dce          rounds = round; round; ccp; dce; ccp
    The state carries the or-ed flags of the ccp applications and the supply of fresh names for cse. *)
 Definition pst := (func * fl * list name)%type.
+Section Pipeline.
+Variable g : ver.
 Definition then_ccp (r : option pst) : option pst :=
   match r with
-  | Some (f, fl1, s) => match ccp f with Some (f', fl2) => Some (f', orf fl1 fl2, s) | None => None end
+  | Some (f, fl1, s) => match ccp_gen g f with Some (f', fl2) => Some (f', orf fl1 fl2, s) | None => None end
   | None => None
   end.
 Definition then_pure (p : func -> func) (r : option pst) : option pst :=
@@ -770,8 +813,13 @@ Definition then_cse (on : bool) (r : option pst) : option pst :=
   else r.
 Definition one_round (lvn_on cse_on : bool) (r : option pst) : option pst :=
   then_pure dce (then_pure (if lvn_on then lvn else fun f => f) (then_cse cse_on (then_ccp r))).
-Definition pipeline (lvn_on cse_on : bool) (sup : list name) (f : func) : option pst :=
+Definition pipeline_gen (lvn_on cse_on : bool) (sup : list name) (f : func) : option pst :=
   then_ccp (then_pure dce (then_ccp (one_round lvn_on cse_on (one_round lvn_on cse_on (Some (f, fl0, sup)))))).
+End Pipeline.
+Definition pipeline := pipeline_gen ver_now.
+(* decidable: the pipeline without forwarding of struct fields gives the same result *)
+Definition pipeline_no_struct_forwarding (lvn_on cse_on : bool) (sup : list name) (f : func) : Prop :=
+  pipeline_gen ver_nf lvn_on cse_on sup f = pipeline lvn_on cse_on sup f.
 (* decidable: none of the five applications of ccp met dead final operands (see dead_final_operands) *)
 Definition pipeline_no_dead_final_operands (lvn_on cse_on : bool) (sup : list name) (f : func) : Prop :=
   match pipeline lvn_on cse_on sup f with Some (_, fl, _) => fst fl = false | None => True end.
